@@ -22,6 +22,37 @@ pub enum FOp {
     Clear,
 }
 
+/// heap-shaped history: `fill` pushes on distinct (state, depth) keys (seeded order), optionally one re-push of an
+/// existing key, then pops until empty (the order of the pops depends on the symbolic bounds: the solver explores them)
+pub fn fringe_fill_ops(seed: u64, fill: usize, nstates: u8, ndepths: usize) -> Vec<FOp> {
+    let mut r = Rng(seed.wrapping_mul(0x9E37) ^ 0xf111);
+    let mut keys: Vec<(u8, usize)> = vec![];
+    for s in 0..nstates {
+        for d in 0..ndepths {
+            keys.push((s, d));
+        }
+    }
+    for i in (1..keys.len()).rev() {
+        let j = r.below(i as u64 + 1) as usize;
+        keys.swap(i, j);
+    }
+    let mut v: Vec<FOp> = keys.iter().take(fill).map(|(s, d)| FOp::Push(*s, *d)).collect();
+    match r.below(3) {
+        0 => {
+            let (s, d) = keys[r.below(fill.min(keys.len()) as u64) as usize];
+            v.push(FOp::Push(s, d));
+        }
+        1 => {
+            v.insert(fill / 2, FOp::Pop);
+        }
+        _ => {}
+    }
+    for _ in 0..fill + 1 {
+        v.push(FOp::Pop);
+    }
+    v
+}
+
 pub fn fringe_ops(seed: u64, len: usize, nstates: u8, ndepths: usize) -> Vec<FOp> {
     let mut r = Rng(seed.wrapping_mul(0x9E37) ^ 0xf00d);
     loop {
